@@ -22,6 +22,7 @@ func init() {
 	engine.Register("V-TWO-CURRENT", ruleVTwoCurrent)
 	engine.Register("N-PRESENCE", ruleNPresence)
 	engine.Register("L-CLASS", ruleLClass)
+	engine.Register("V-SELECT", ruleVSelect)
 }
 
 // queryFamily: functions whose receiver type is a query, comparator or validator type
@@ -1506,4 +1507,250 @@ func ruleLClass(c *engine.Context) *report.Rule {
 		}
 	}
 	return r
+}
+
+// ---------------------------------------------------------------------------------------------
+// V-SELECT: the filter qualifier selects exactly the members whose verdict is true. For a
+// per-member verdict list (length = member count) member i is handed to the next step iff
+// verdict[i] is not the marker — same index for member and verdict; for a whole-match list
+// either every member is handed on (verdict[0] not the marker) or the step fails without
+// handing on any (verdict[0] is the marker).
+func ruleVSelect(c *engine.Context) *report.Rule {
+	r := report.NewRule("V-SELECT", "the filter hands member i to the next step exactly when its verdict is true (per-member list: verdict[i]; whole-match list: verdict[0])", 2)
+	p := c.P
+	found := 0
+	for _, fn := range retrieveFamily(c) {
+		// the verdict list: result of invoking the query interface
+		var V *ssa.Call
+		for _, b := range fn.Blocks {
+			for _, ins := range b.Instrs {
+				if call, ok := ins.(*ssa.Call); ok && call.Call.IsInvoke() && types.Identical(call.Call.Value.Type(), p.Roles.QueryIface) {
+					V = call
+				}
+			}
+		}
+		if V == nil {
+			continue
+		}
+		found++
+		r.Instances++
+		name := load.FuncName(fn)
+		// isEach: len(V) == len(X)
+		isEachCond := func(v ssa.Value) (neg bool, ok bool) {
+			v, n := unwrapNot(v)
+			bo, isBo := v.(*ssa.BinOp)
+			if !isBo || (bo.Op != token.EQL && bo.Op != token.NEQ) {
+				return false, false
+			}
+			lx, okx := lenArg(bo.X)
+			ly, oky := lenArg(bo.Y)
+			if !okx || !oky || !(lx == ssa.Value(V) || ly == ssa.Value(V)) {
+				return false, false
+			}
+			return n != (bo.Op == token.NEQ), true
+		}
+		markerOf := func(v ssa.Value) (idx ssa.Value, neg bool, ok bool) {
+			v, n := unwrapNot(v)
+			var elem ssa.Value
+			switch x := v.(type) {
+			case *ssa.BinOp:
+				if x.Op != token.EQL && x.Op != token.NEQ {
+					return nil, false, false
+				}
+				if isMarkerValue(p, x.Y) {
+					elem = x.X
+				} else if isMarkerValue(p, x.X) {
+					elem = x.Y
+				} else {
+					return nil, false, false
+				}
+				n = n != (x.Op == token.NEQ)
+			case *ssa.Call:
+				sc := x.Call.StaticCallee()
+				if sc == nil || len(x.Call.Args) != 1 {
+					return nil, false, false
+				}
+				pn, isPred := markerPredicate(p, sc)
+				if !isPred {
+					return nil, false, false
+				}
+				elem = x.Call.Args[0]
+				n = n != pn
+			default:
+				return nil, false, false
+			}
+			ld, isLd := elem.(*ssa.UnOp)
+			if !isLd {
+				return nil, false, false
+			}
+			ia, isIA := ld.X.(*ssa.IndexAddr)
+			if !isIA || ia.X != ssa.Value(V) {
+				return nil, false, false
+			}
+			return ia.Index, n, true
+		}
+		var problems []string
+		// whole-match false: !isEach and V[0]==marker leads to a failing return
+		wholeOK := false
+		for _, b := range fn.Blocks {
+			ifi, ok := b.Instrs[len(b.Instrs)-1].(*ssa.If)
+			if !ok {
+				continue
+			}
+			idx, neg, isM := markerOf(ifi.Cond)
+			if !isM {
+				continue
+			}
+			if cv, isC := cfgutilConst(idx); !isC || cv != 0 {
+				continue
+			}
+			markerSucc := b.Succs[0]
+			if neg {
+				markerSucc = b.Succs[1]
+			}
+			notEach := false
+			for _, dc := range dominatingConds(b) {
+				if n, isE := isEachCond(dc.cond); isE && (dc.taken == n) {
+					notEach = true
+				}
+			}
+			if ret, isRet := markerSucc.Instrs[len(markerSucc.Instrs)-1].(*ssa.Return); isRet && notEach && len(ret.Results) == 1 {
+				if cst, isC := ret.Results[0].(*ssa.Const); !isC || !cst.IsNil() {
+					wholeOK = true
+				}
+			}
+		}
+		if !wholeOK {
+			problems = append(problems, "no path that fails without handing on any member when the whole-match verdict is false (verdict[0] is the marker and the length differs from the member count)")
+		}
+		// the member loop
+		loopsSeen := 0
+		for _, l := range cfgutil.Loops(fn) {
+			ind := cfgutil.Classify(l)
+			if ind.Kind != cfgutil.LoopAscending {
+				continue
+			}
+			// the step call in the loop
+			var step *ssa.Call
+			for b := range l.Blocks {
+				for _, ins := range b.Instrs {
+					if call, ok := ins.(*ssa.Call); ok {
+						if sc := call.Call.StaticCallee(); sc != nil && sinkParam(p, sc) != nil && call != V {
+							step = call
+						}
+						if call.Call.IsInvoke() && call.Call.Method.Name() == p.Roles.RetrieveName {
+							step = call
+						}
+					}
+				}
+			}
+			if step == nil {
+				continue
+			}
+			loopsSeen++
+			body := l.Header.Succs[0]
+			if !l.Blocks[body] {
+				body = l.Header.Succs[1]
+			}
+			type fact struct{ each, marker int } // -1 unknown, 0 false, 1 true
+			var walk func(b *ssa.BasicBlock, f fact, on map[*ssa.BasicBlock]bool)
+			walk = func(b *ssa.BasicBlock, f fact, on map[*ssa.BasicBlock]bool) {
+				if b == step.Block() {
+					if !(f.each == 0 || (f.each == 1 && f.marker == 0)) {
+						problems = append(problems, fmt.Sprintf("a member can be handed to the next step on a path where it is not established that the list is a whole-match list or that the member's own verdict is true (per-member list known: %s, verdict is marker: %s)", tri(f.each), tri(f.marker)))
+					}
+					return
+				}
+				if b == l.Header {
+					if !(f.each == 1 && f.marker == 1) {
+						problems = append(problems, fmt.Sprintf("a member can be skipped on a path where its verdict is not known to be false (per-member list known: %s, verdict is marker: %s)", tri(f.each), tri(f.marker)))
+					}
+					return
+				}
+				if !l.Blocks[b] || on[b] {
+					return
+				}
+				on[b] = true
+				defer delete(on, b)
+				ifi, ok := b.Instrs[len(b.Instrs)-1].(*ssa.If)
+				if !ok {
+					for _, s := range b.Succs {
+						walk(s, f, on)
+					}
+					return
+				}
+				if n, isE := isEachCond(ifi.Cond); isE {
+					for i, s := range b.Succs {
+						g := f
+						if (i == 0) != n {
+							g.each = 1
+						} else {
+							g.each = 0
+						}
+						walk(s, g, on)
+					}
+					return
+				}
+				if idx, n, isM := markerOf(ifi.Cond); isM {
+					if idx != ind.Index {
+						problems = append(problems, "the verdict tested is not the one at the member's own index")
+					}
+					for i, s := range b.Succs {
+						g := f
+						if (i == 0) != n {
+							g.marker = 1
+						} else {
+							g.marker = 0
+						}
+						walk(s, g, on)
+					}
+					return
+				}
+				problems = append(problems, "a condition other than the list-kind test and the member's verdict decides whether a member is handed on ("+condText(ifi.Cond)+")")
+			}
+			walk(body, fact{-1, -1}, map[*ssa.BasicBlock]bool{})
+			// member index = verdict index
+			usesIdx := false
+			for _, a := range step.Call.Args {
+				if a == ind.Index {
+					usesIdx = true
+				}
+				if ld, ok := a.(*ssa.UnOp); ok {
+					if ia, ok := ld.X.(*ssa.IndexAddr); ok && ia.Index == ind.Index {
+						usesIdx = true // key list element at the same index
+					}
+				}
+			}
+			if !usesIdx {
+				problems = append(problems, "the member handed on is not the one at the index whose verdict was tested")
+			}
+		}
+		if loopsSeen != 1 {
+			problems = append(problems, fmt.Sprintf("expected one member loop that hands members to the next step, found %d", loopsSeen))
+		}
+		problems = uniqSorted(problems)
+		r.Oblige(len(problems) == 0)
+		r.Nontrivial++
+		r.Sample("%s: selection follows the verdict list: %v", name, len(problems) == 0)
+		for i, pr := range problems {
+			if i >= 3 {
+				break
+			}
+			r.Violation(fmt.Sprintf("%s: selection (%d)", name, i+1), p.RelPos(fn.Pos()), "%s: %s", name, pr)
+		}
+	}
+	if found < 2 {
+		r.InfraFail("anchor unresolved: expected the object and the array branch of the filter qualifier, found %d", found)
+	}
+	return r
+}
+
+func tri(v int) string {
+	switch v {
+	case 0:
+		return "false"
+	case 1:
+		return "true"
+	}
+	return "unknown"
 }
